@@ -551,6 +551,8 @@ impl<'a> Command<'a> {
                             return Err(ParameterDoesntMatch(JOINId, 1));
                         }
                     }
+                    // channel named more than once is joined once.
+                    let (channels, keys_opt) = dedup_join_list(channels, keys_opt);
                     Ok(JOIN {
                         channels,
                         keys: keys_opt,
